@@ -35,7 +35,7 @@ type StreamConn struct {
 	deadline     time.Time
 	// ReadLimit, if set, bounds the bytes returned by the next Read
 	// (stream segmentation is a harness decision). 0 or less = no limit.
-	ReadLimit func() int
+	ReadLimit   func() int
 	closedLocal bool
 }
 
